@@ -12,6 +12,9 @@ Abstract values
   ("BUILD", toks, n)  a fresh list holding exactly the elements ``toks``
                       (strictly increasing iteration tokens), built from a
                       source with n applications
+  ("PERM", why, node, n) the source's elements reordered / deduplicated
+                      (sorted, reversed, set): fine to pick an element from,
+                      not a sub-sequence
   ("BAD", why, node)  a recognised shape that is *not* a sub-sequence
   ("OTHER",)          anything else (numbers, sets of machine ids, ...)
 """
@@ -222,6 +225,10 @@ class SubInterp:
             return ("OTHER",)
         if isinstance(e, ast.Subscript):
             base = self.eval(e.value, env)
+            if base[0] == "PERM":
+                if isinstance(e.slice, ast.Slice):
+                    return base
+                return ("ELEM", id(e), None, base[3])
             if not is_sub(base):
                 return ("OTHER",)
             if isinstance(e.slice, ast.Slice):
@@ -256,8 +263,9 @@ class SubInterp:
                 return ("BAD", "filter applied to something that is not the (filtered) input list", e)
         if d in ORDER_BREAKERS and e.args:
             a = self.eval(e.args[0], env)
-            if is_sub(a):
-                return ("BAD", ORDER_BREAKERS[d], e)
+            if is_sub(a) or a[0] == "PERM":
+                # same elements, order/multiplicity not preserved
+                return ("PERM", ORDER_BREAKERS[d], e, apps(a) if is_sub(a) else a[3])
             return ("OTHER",)
         if d in COPY_CALLS and len(e.args) == 1:
             a = self.eval(e.args[0], env)
@@ -271,6 +279,8 @@ class SubInterp:
             return ("OTHER",)
         if d in ("min", "max", "next", "random.choice") and e.args:
             a = self.eval(e.args[0], env)
+            if a[0] == "PERM":
+                return ("ELEM", id(e), None, a[3])
             if is_sub(a):
                 return ("ELEM", id(e), None, apps(a))
             return ("OTHER",)
